@@ -20,6 +20,7 @@ import (
 	"net/http"
 	"net/http/httptest"
 	"os"
+	"runtime"
 	"sort"
 	"strings"
 	"sync"
@@ -435,6 +436,7 @@ func TestVerifC07Ingest(t *testing.T) {
 	defer srv.Close()
 	sel := vc07Selector()
 	discard := log.New(io.Discard, "", 0)
+	baseline := runtime.NumGoroutine()
 
 	res := make([][]vc07StepRes, len(cases))
 	pblocks := make([][][2]string, len(cases))
@@ -593,18 +595,24 @@ func TestVerifC07Ingest(t *testing.T) {
 		}
 		res[ci] = out
 	}
-	// the shares are posted from goroutines: wait until none has arrived for a while
-	deadline := time.Now().Add(20 * time.Second)
+	// the shares are posted from goroutines: wait until none has arrived for a while and the
+	// goroutines that post them are gone (idle HTTP connections closed so that their loops exit)
+	deadline := time.Now().Add(40 * time.Second)
+	final := 0
 	for time.Now().Before(deadline) {
 		time.Sleep(150 * time.Millisecond)
+		if tr, ok := http.DefaultTransport.(*http.Transport); ok {
+			tr.CloseIdleConnections()
+		}
 		rec.mu.Lock()
 		idle := rec.last.IsZero() || time.Since(rec.last) > 400*time.Millisecond
 		rec.mu.Unlock()
-		if idle {
+		final = runtime.NumGoroutine()
+		if idle && final <= baseline+2 {
 			break
 		}
 	}
-	time.Sleep(300 * time.Millisecond)
+	time.Sleep(200 * time.Millisecond)
 	rec.mu.Lock()
 	shares := rec.shares
 	rec.mu.Unlock()
@@ -614,7 +622,8 @@ func TestVerifC07Ingest(t *testing.T) {
 	for i := range shares {
 		shares[i].Mask = strings.TrimPrefix(shares[i].Mask, "m")
 	}
-	out, _ := json.Marshal(map[string]interface{}{"results": res, "shares": shares, "pblocks": pblocks})
+	out, _ := json.Marshal(map[string]interface{}{"results": res, "shares": shares, "pblocks": pblocks,
+		"goroutines": []int{baseline, final}})
 	if err := os.WriteFile(os.Getenv("VERIF_OUT"), out, 0o644); err != nil {
 		t.Fatal(err)
 	}
